@@ -56,6 +56,11 @@ class LiteralPathGlobbed(Exception):
 
 
 class _Glob:
+    def __getattr__(self, n):
+        import glob as _g
+
+        return getattr(_g, n)
+
     @staticmethod
     def glob(pattern):
         if not ("*" in pattern or "?" in pattern):
